@@ -518,6 +518,9 @@ func (s *Server) handleRequest(ctx context.Context, req *Request) (*response, ht
 
 	calledMethod, found := s.methods[req.Method]
 	if !found {
+		if req.ID == nil { // a notification is never answered, not even with an error
+			return nil, header, nil
+		}
 		res.Error = Err(MethodNotFound, nil)
 		s.logger.Trace(
 			"Method not found in request",
@@ -530,6 +533,9 @@ func (s *Server) handleRequest(ctx context.Context, req *Request) (*response, ht
 	s.listener.OnNewRequest(req.Method)
 	args, err := s.buildArguments(ctx, req.Params, calledMethod)
 	if err != nil {
+		if req.ID == nil { // a notification is never answered, not even with an error
+			return nil, header, nil
+		}
 		res.Error = Err(InvalidParams, err.Error())
 		s.logger.Trace("Error building arguments for RPC call", zap.Error(err))
 		return res, header, nil
